@@ -136,7 +136,9 @@ def slice_expr(e, W, lo, n):
   if lo == 0 and n == W: return e
   k = e[0]
   if k == 'c': return C(n, e[2] >> lo)
-  if k == 'r': return ('r', e[1], e[2] + lo, n)
+  if k == 'r':
+    assert e[3] == W, (e, W)
+    return ('r', e[1], e[2] + lo, n)
   if k == 'cat':
     wb = e[2]
     if lo + n <= wb: return slice_expr(e[3], wb, lo, n)
@@ -148,6 +150,19 @@ def slice_expr(e, W, lo, n):
     return mk_bin(e[1], n, slice_expr(e[3], W, lo, n), slice_expr(e[4], W, lo, n))
   shifted = e if lo == 0 else ('b', 'shr', W, e, C(W, lo))
   return ('b', 'and', n, shifted, C(n, (1 << n) - 1))
+
+def ewidth(e):
+  """structural width of an expression (every constructor keeps it equal to the nominal width of the value)"""
+  k = e[0]
+  if k == 'c': return e[1]
+  if k == 'r': return e[3]
+  if k == 'n': return e[1]
+  if k == 'b': return 1 if e[1] in CMPS else e[2]
+  if k == 'm':
+    a, b = ewidth(e[2]), ewidth(e[3])
+    if a != b: raise ValueError(f'mux branches of widths {a} / {b}')
+    return a
+  return ewidth(e[1]) + e[2]
 
 def expr_reads(e, out):
   k = e[0]
@@ -473,6 +488,11 @@ class BlockTx:
     asgs = []
     for g in sorted(self.st.sig):
       for (lo, w, e) in self.st.sig[g]: asgs.append(((g, lo, w), e))
+    for x in self.b['virt'] + [{'asgs': asgs}]:
+      for t, e in x['asgs']:
+        try: ok = ewidth(e) == t[2]
+        except ValueError: ok = False
+        if not ok: raise self.bad(None, f'internal error of the translator: expression width differs from its target {t}')
     total = sum(esize(e) for _, e in asgs) + sum(esize(e) for v in self.b['virt'] for _, e in v['asgs'])
     if total > self.tr.max_nodes: raise self.bad(None, f'translated block has {total} expression nodes')
     # parallel -> sequential: an assignment that reads a range must come before the assignment that writes it
@@ -935,7 +955,8 @@ class BlockTx:
         if nw > v.w: raise self.bad(n, f'trunc to {nw} of Bits{v.w} (the real code raises)')
         return Sym(nw, slice_expr(v.e, v.w, 0, nw))
       if nw < v.w: raise self.bad(n, f'extension to {nw} of Bits{v.w} (the real code raises)')
-      if nw == v.w or f is dt.zext: return Sym(nw, v.e)
+      if nw == v.w: return Sym(nw, v.e)
+      if f is dt.zext: return Sym(nw, mk_cat(C(nw - v.w, 0), v.w, v.e))
       v = self.lift(v, 8)
       sign = slice_expr(v.e, v.w, v.w - 1, 1)
       ext = nw - v.w
@@ -959,25 +980,29 @@ class BlockTx:
       return Sym(w, self.coerce_assign(vals[0], w, n))
     if is_struct_cls:
       fields = list(f.__bitstruct_fields__.items())
-      given = dict(zip([k for k, _ in fields], vals))
+      if len(args) > len(fields): raise self.bad(n, 'too many bitstruct arguments')
+      given = dict(zip([k for k, _ in fields], args))
       for k, v in kw.items():
         if k in given or k not in f.__bitstruct_fields__: raise self.bad(n, f'bitstruct argument {k!r}')
-        given[k] = self.rv(v, n)
-      if len(vals) > len(fields): raise self.bad(n, 'too many bitstruct arguments')
+        given[k] = v
       W = int(f.nbits)
       parts = []
-      for name, ft in fields:
-        if isinstance(ft, list): raise self.bad(n, 'constructor of a bitstruct with list fields')
-        lo, w, _ = field_range(f, name)
-        if name not in given: e = C(w, 0)
+      def place(name, ft, idxs, v):
+        if isinstance(ft, list):
+          if v is not None and not (isinstance(v, (list, tuple)) and len(v) == len(ft)):
+            raise self.bad(n, f'field {name} needs a list of {len(ft)} values')
+          for i, sub in enumerate(ft): place(name, sub, idxs + (i,), None if v is None else v[i])
+          return
+        lo, w, _ = field_range(f, name, idxs)
+        if v is None: e = C(w, 0)
         else:
-          v = given[name]
+          v = self.rv(v, n)
           if is_bs(ft):
-            if is_bsi(v): v = self.rv(v, n)
             if not (isinstance(v, Sym) and v.T is ft): raise self.bad(n, f'field {name} needs a {ft.__name__}')
             e = v.e
           else: e = self.coerce_assign(v, w, n)
         parts.append((lo, w, e))
+      for name, ft in fields: place(name, ft, (), given.get(name))
       parts.sort()
       pos = 0
       for lo, w, _ in parts:
